@@ -153,15 +153,22 @@ Qed.
 
 (* ------------------------------------------------------------------ the frame *)
 
-Lemma J_frame_exp : forall sv sv' o, same_for o sv sv' -> (forall q, V sv' o q = V sv o q) ->
-  (forall ss, get_session sv o = Some ss -> forall q, expected (sv_tree sv') ss q = expected (sv_tree sv) ss q) ->
+Lemma J_frame_foreign : forall sv sv' o, same_for o sv sv' -> (forall q, V sv' o q = V sv o q) ->
+  (forall ss, get_session sv o = Some ss -> forall q, own_node ss q = false ->
+              expected (sv_tree sv') ss q = expected (sv_tree sv) ss q) ->
   J sv o -> J sv' o.
 Proof.
   intros sv sv' o Hs HV He HJ ss' Hss' q Hown.
   destruct (Hs ss' Hss') as [ss [Hss [Hsub Hdir]]].
-  rewrite HV, (HJ ss Hss q); [|now rewrite (own_node_dir ss ss' q Hdir)].
-  f_equal. rewrite <- (He ss Hss q). apply expected_subs. exact Hsub.
+  assert (Hown0 : own_node ss q = false) by (now rewrite (own_node_dir ss ss' q Hdir)).
+  rewrite HV, (HJ ss Hss q Hown0).
+  f_equal. rewrite <- (He ss Hss q Hown0). apply expected_subs. exact Hsub.
 Qed.
+
+Lemma J_frame_exp : forall sv sv' o, same_for o sv sv' -> (forall q, V sv' o q = V sv o q) ->
+  (forall ss, get_session sv o = Some ss -> forall q, expected (sv_tree sv') ss q = expected (sv_tree sv) ss q) ->
+  J sv o -> J sv' o.
+Proof. intros sv sv' o Hs HV He. apply J_frame_foreign; auto. Qed.
 
 Lemma expected_hidden : forall t (ss : session) D q, wf_groups (m_groups (s_subs ss)) ->
   hidden_data (all_entries (s_subs ss)) D -> is_prefix D q = true -> expected t ss q = None.
